@@ -1,8 +1,10 @@
 (* extraction of the C16 models: ExtrOcamlBasic only (bool, option, unit, list, prod, sumbool mapped); Z, positive, nat stay inductive *)
-Require Import GeosV.Lib.KernelDefs GeosV.Lib.GenPreludeF GeosV.C16.Defs GeosV.C16.B64Defs GeosV.C16.InputDefs.
+Require Import GeosV.Lib.KernelDefs GeosV.Lib.GenPreludeF GeosV.C16.Defs GeosV.C16.B64Defs GeosV.C16.InputDefs GeosV.C16.QuadEdgeDefs.
 Require Extraction.
 Require Import ExtrOcamlBasic.
 Extraction "xc16.ml" delaunay_clauses check_delaunay check_degenerate check_edges check_disjoint failed
   local_violations global_violations band_blind cdt_clauses cdt_multi_clauses check_cdt check_cdt1 owner_count voronoi_clauses check_voronoi check_voronoi_edges assign_sites
   same_pts diagram_env robust_b64 nonrobust_b64 det_b64 fpt_of_bits robust_grid band_quads exact_loc dyadic_of min_exp scale_dy
-  hull sort_pts incircle geos_incircle geos_band polygons_valid of_bits to_bits tri_ccw corners.
+  hull sort_pts incircle geos_incircle geos_band polygons_valid of_bits to_bits tri_ccw corners
+  QuadEdgeDefs.empty QuadEdgeDefs.step QuadEdgeDefs.run QuadEdgeDefs.legal QuadEdgeDefs.legal_from QuadEdgeDefs.init_subdiv QuadEdgeDefs.oNext QuadEdgeDefs.orig
+  QuadEdgeDefs.is_dead QuadEdgeDefs.rot QuadEdgeDefs.inv_b QuadEdgeDefs.org_consistent_b QuadEdgeDefs.orbit QuadEdgeDefs.in_orbit QuadEdgeDefs.lNext QuadEdgeDefs.oPrev.
